@@ -38,7 +38,7 @@ func (g *Gen) newFuncVC(fn *ssa.Function, key string, c *Contract) *FuncVC {
 	return &FuncVC{G: g, Fn: fn, Key: key, C: c, declared: map[string]bool{}, counters: map[string]int{}, assumptions: map[string]bool{},
 		strConsts: map[string]string{}, predCache: map[string]string{}, inlined: map[string]bool{}, callees: map[string]bool{},
 		hsort: map[string]string{}, closures: map[ssa.Value]bool{}, knownLen1: map[string]bool{}, inlineStack: map[*ssa.Function]int{},
-		usedContracts: map[string]bool{}, usedLemmas: map[string]bool{}, defs: map[string]string{}, loadCache: map[string]cacheEnt{}, predIdx: map[string]int{}, callOrd: map[string]int{}, firedGhosts: map[*GhostClause]bool{}, groundDefs: map[string]bool{}, skippedKinds: map[string]int{}}
+		usedContracts: map[string]bool{}, usedLemmas: map[string]bool{}, defs: map[string]string{}, loadCache: map[string]cacheEnt{}, predIdx: map[string]int{}, callOrd: map[string]int{}, firedGhosts: map[*GhostClause]bool{}, groundDefs: map[string]bool{}, skippedKinds: map[string]int{}, stablePreds: map[string]bool{}}
 }
 
 // generate builds all obligations of one function under contract.
